@@ -135,6 +135,14 @@ def expand(item, seed):
                         for api in (("recv", "recv_data") if kind == "text" else ("recv_data", "recv_frame")):
                             if skip and api == "recv":
                                 continue
+                            if kind == "close" and cut == 0:
+                                for code in (3000, 4999):
+                                    yield {"kind": kind, "cls": cls, "hex": p.hex(), "cuts": [], "skip_utf8": skip, "api": api, "sizes": [1],
+                                           "seed": 1, "code": code}
+                            if kind == "text" and not skip and cut == 0:
+                                for then in ("text_ascii", "text_cont_byte", "binary", "text_utf8"):
+                                    yield {"kind": kind, "cls": cls, "hex": p.hex(), "cuts": [], "skip_utf8": skip, "api": api, "sizes": [1],
+                                           "seed": 1, "then": then}
                             yield {"kind": kind, "cls": cls, "hex": p.hex(), "cuts": [cut] if kind == "text" and 0 < cut < len(p) or (kind == "text" and cut in (0, len(p)) and len(p)) else [],
                                    "skip_utf8": skip, "api": api, "sizes": [1], "seed": 1}
     elif k == "sweep":
@@ -158,8 +166,14 @@ def gen(rng):
         api = rng.choice(("recv", "recv_data", "recv_frame"))
     sizes = [rng.choice((1, 2, 3, 7, 100)) for _ in range(rng.randrange(1, 4))] if rng.random() < 0.7 else []
     ctl = rng.random() < 0.2
-    return {"kind": kind, "cls": cls, "hex": p.hex(), "cuts": cuts, "skip_utf8": skip, "api": api, "sizes": sizes,
-            "ctl_between": ctl, "seed": rng.randrange(1 << 30)}
+    sc = {"kind": kind, "cls": cls, "hex": p.hex(), "cuts": cuts, "skip_utf8": skip, "api": api, "sizes": sizes,
+          "ctl_between": ctl, "seed": rng.randrange(1 << 30)}
+    if kind == "close":
+        sc["code"] = rng.choice((1000, 1000, 1001, 1011, 3000, 3999, 4000, 4999))
+    elif not skip and api != "recv_frame" and rng.random() < 0.35:
+        # the caller catches the payload exception and keeps receiving: nothing of the rejected message may surface later
+        sc["then"] = rng.choice(("text_ascii", "text_cont_byte", "binary", "text_utf8"))
+    return sc
 
 
 def gen_selftest(rng):
@@ -243,9 +257,19 @@ def run(sc, choices=None):
         elif kind == "close":
             if len(p) > 123:
                 raise InvalidScenario("close reason too long")
-            spec = [{"fin": 1, "op": 8, "hex": (b"\x03\xe8" + p).hex()}]
+            code = int(sc.get("code", 1000))
+            if code not in (1000, 1001, 1011, 3000, 3999, 4000, 4999):
+                raise InvalidScenario("close code")
+            spec = [{"fin": 1, "op": 8, "hex": (code.to_bytes(2, "big") + p).hex()}]
         else:
             raise InvalidScenario("kind")
+        then = sc.get("then")
+        if then is not None:
+            if kind != "text" or skip or then not in ("text_ascii", "text_cont_byte", "binary", "text_utf8"):
+                raise InvalidScenario("then")
+            follow = {"text_ascii": (1, b"hello"), "text_cont_byte": (1, b"\xac"), "binary": (2, b"\x00\xff\x80"),
+                      "text_utf8": (1, "gr\u00fc\u00df".encode())}[then]
+            spec.append({"fin": 1, "op": follow[0], "hex": follow[1].hex()})
         stream, frames = frames_from(spec)
     except (KeyError, TypeError, ValueError) as e:
         raise InvalidScenario(str(e))
@@ -253,12 +277,27 @@ def run(sc, choices=None):
         raise InvalidScenario("recv() with validation off is not pinned down for ill-formed text")
     cfg = {"api": api, "timeout": 4 * S, "end": "eof", "skip_utf8": skip, "sizes": list(sc.get("sizes", ())),
            "max_calls": len(frames) + 3}
+    if then is not None:
+        cfg["continue_after_exc"] = True
+        cfg["max_calls"] = len(frames) + 5
     out = run_recv(int(sc.get("seed", 1)), stream, cfg, res)
     ok = R.utf8_ok(p)
     trunc = (not ok) and _is_truncation(p)
     pcls = "well_formed" if ok else ("cut_short_at_end" if trunc else "ill_formed")
     ctx = f"{kind}/{'validation_off' if skip else 'validation_on'}/{pcls}"
-    check_model(res, out, frames, api, False, skip, "eof", ctx)
+    if then is None:
+        check_model(res, out, frames, api, False, skip, "eof", ctx)
+    else:
+        # message 1 judged on its own, message 2 judged on its own: whatever happened to the first must not leak into the second
+        from ..recvdrv import predict, obs_matches
+        n1 = len(frames) - 1
+        e1, _, _ = predict(frames[:n1], api, False, skip, "none")
+        e2, _, _ = predict(frames[n1:], api, False, skip, "eof")
+        if e2 and e2[-1][0] == "exc" and e2[-1][1] != "WebSocketConnectionClosedException":
+            e2.append(["exc", "WebSocketConnectionClosedException"])  # the caller reads on and meets the end of the stream
+        why = obs_matches(out["obs"], e1 + e2, True)
+        if why:
+            res.violate("rejected_message_leaks_into_next" if not ok else "observation_differs", ctx, why + f" (following message: {then})")
     # split inside a code point?
     inside = False
     for c in cuts:
@@ -275,4 +314,4 @@ def run(sc, choices=None):
 def sample_view(sc, r):
     if sc.get("kind") == "sweep":
         return {"validator_sweep": sc, "strings": r.info.get("sweep_strings")}
-    return {k: sc.get(k) for k in ("kind", "cls", "hex", "cuts", "skip_utf8", "api", "sizes")}
+    return {k: sc.get(k) for k in ("kind", "cls", "hex", "cuts", "skip_utf8", "api", "sizes", "code", "then")}
